@@ -131,6 +131,15 @@ class C05(C02):
     def monitor(self, ex, i, op, res, cfg):
         if cfg.get("hazards", {}).get("names"):
             ex.probe("hazard.names")
+        if op["op"] == "ci_run" and "ci" in ex.repos:
+            # the CI rewrite writes notes in the CI clone and pushes them: both places are held to the invariant
+            ex.probe("ci.checked")
+            for name, repo in (("ci", ex.repos["ci"]), ("remote", ex.w.root + "/remote.git")):
+                v = check_all_notes(ex, repo, ex.gen_state.setdefault("note_cache_" + name, {}))
+                if v:
+                    v["detail"]["repository"] = name
+                    return v
+            return None
         if op["op"] not in ("git", "gitai"):
             return None
         repo = ex.repo(op)
